@@ -608,7 +608,7 @@ def main(check, check_file):
         return EXIT_OK
 
     print(f"[{check.prop}] seed={seed} tier={tier} workers={workers} tree={boot.info().get('tree_hash')}", flush=True)
-    nwarm = warm(getattr(check, "warm_extra", None))
+    nwarm = 0 if getattr(check, "no_warm", False) else warm(getattr(check, "warm_extra", None))
     if getattr(check, "warm_refinement", False):
         nwarm += warm_refinement_variants()
     print(f"[{check.prop}] boot+warm {time.time()-t0:.1f}s ({nwarm} signatures)", flush=True)
